@@ -118,6 +118,29 @@ pub fn gen(prop: &str, tier: &str, seed: u64, out: &mut Vec<String>) {
                 }
             }
         }
+        "C10" => {
+            let ops = ["encv-sync", "encp-sync", "encv-fsm", "encp-fsm", "mixed", "decr-sync", "decr-fsm", "ob-sync", "ob-fsm",
+                "obpo-sync", "obpo-fsm", "copy-sync", "copy-fsm", "valid-sync", "valid-fsm", "validob-sync", "validob-fsm"];
+            for &bs in &[0u32, 1, 2] {
+                let sizes: Vec<u64> = hash_sizes(bs, if t { 6 } else { 3 }, 30_000).into_iter().filter(|s| *s > 0).collect();
+                for size in sizes {
+                    let b = crate::gen2::blob_desc(&mut r, size);
+                    let chunks = (size + 1023) / 1024;
+                    let mut qs = crate::gen2::query_classes(&mut r, chunks, bs);
+                    qs.truncate(if t { 10 } else { 4 });
+                    for q in qs {
+                        for op in ops {
+                            if !t && r.chance(2, 3) {
+                                continue;
+                            }
+                            let store = if op.starts_with("decr") { *r.pick(SINKS) } else { *r.pick(crate::gen2::STORES) };
+                            let stride = if t || chunks <= 8 { 1 } else { 1 + r.below(3) };
+                            out.push(format!("faults {op}/{b}/{bs}/{store}/{} {stride}", nat_list(&q)));
+                        }
+                    }
+                }
+            }
+        }
         "C11" => {
             for &bs in &[0u32, 1, 2] {
                 let sizes: Vec<u64> = hash_sizes(bs, 3, 20_000);
